@@ -284,7 +284,8 @@ class Generator:
                 continue
             cmd, arg = m.group(1), m.group(2).strip()
             if cmd == "include":
-                self.process_file(os.path.join(VERIF, arg))
+                if arg not in self.includes:      # include-once
+                    self.process_file(os.path.join(VERIF, arg))
                 i += 1
             elif cmd == "const" or cmd == "enum" or cmd == "item" or cmd == "type":
                 self.do_simple_item(cmd, arg, rel, i + 1)
@@ -572,6 +573,10 @@ class Generator:
             text = re.sub(r":[^{]*\{$", " {", text.strip())
             rules["R4"] = 1
         self.out.emit("pub " + text + "\n", "source", src=src, byte=s[it.kw].start)
+        for sub in rustlex.parse_items(src, it.body_open + 1, src.match[it.body_open]):
+            if sub.kind == "type":
+                self.out.emit("    " + src.text[s[sub.kw].start:s[sub.last].end] + "\n",
+                              "source", src=src, byte=s[sub.kw].start)
         self.cur_trait = (file, name, it)
         self.items.append(self.item_meta(src, file, [name], it, rules))
 
